@@ -532,6 +532,9 @@ func GenC17Disk(seed uint64, tier string) *Plan {
 	g := newGen(seed, tier, "C17", "disk-error-kinds")
 	g.plan.Config.Judge = false
 	g.genSetup()
+	if g.r.Chance(0.04) {
+		g.pathMaxLadder()
+	}
 	n := g.stepCount()
 	for i := 0; i < n; i++ {
 		st := g.genRequest()
@@ -550,4 +553,65 @@ func GenC17Disk(seed uint64, tier string) *Plan {
 		g.commit(st, nil)
 	}
 	return g.plan
+}
+
+// pathMaxLadder: a tree whose host paths end up on both sides of PATH_MAX. No
+// request can create a name beyond the limit, but a MOVE of an ancestor into a
+// collection with a long name pushes what is below it over: the kernel then
+// answers ENAMETOOLONG for members of collections that can still be opened.
+// Fifteen levels of long names, then a ladder of a hundred one-letter levels
+// with a file on every rung; after the MOVE the limit falls somewhere on the
+// ladder (wherever the sandbox lives), and every rung is listed and read.
+func (g *gen) pathMaxLadder() {
+	if g.j.T.N["/mv"] != nil || strings.HasPrefix(g.plan.Config.RootForm, "missing") {
+		return
+	}
+	add := func(p string) {
+		g.plan.Setup = append(g.plan.Setup, SetupOp{Mkcol: p})
+		g.j.T.Mkcol(p)
+	}
+	long := "/" + strings.Repeat("T", 250)
+	add(long)
+	p := "/mv"
+	add(p)
+	for i := 0; i < 14; i++ {
+		p = model.Join(p, strings.Repeat("L", 250))
+		add(p)
+	}
+	p = model.Join(p, strings.Repeat("M", 200))
+	add(p)
+	var rungs []string
+	for i := 0; i < 100; i++ {
+		p = model.Join(p, "d")
+		add(p)
+		f := model.Join(p, "f")
+		g.plan.Setup = append(g.plan.Setup, SetupOp{Put: f, Data: []byte("rung")})
+		g.j.T.PutFile(f, []byte("rung"))
+		rungs = append(rungs, p)
+	}
+	mv := g.newStep("MOVE", "/mv")
+	mv.set("Destination", long+"/mv")
+	g.commit(mv, nil)
+	for i, r := range rungs {
+		r = long + r
+		st := g.newStep("PROPFIND", r)
+		st.set("Depth", "1")
+		g.commit(st, nil)
+		switch i % 8 {
+		case 1:
+			g.commit(g.newStep("GET", r+"/f"), nil)
+		case 3:
+			st := g.newStep("PUT", r+"/new")
+			st.Body = []byte("x")
+			g.commit(st, nil)
+		case 5:
+			st := g.newStep("COPY", r+"/f")
+			st.set("Destination", "/copied-"+fmt.Sprint(i))
+			g.commit(st, nil)
+		case 7:
+			st := g.newStep("PROPFIND", r)
+			st.set("Depth", rt.Pick(g.r, []string{"0", "infinity"}))
+			g.commit(st, nil)
+		}
+	}
 }
